@@ -202,6 +202,26 @@ def roundtrip_case(ctx, rng, idx, tmp):
             check_file_records(ctx, kind, path, before, wit)
         if not d and rng.random() < 0.5:
             second_generation(ctx, rng, kind, g, fmt, tmp, cfg, wit)
+        if not d and idx % 3 != 2:
+            # the same, untouched file loaded a second time after the FIRST loaded object was edited through the public setters:
+            # what is on disk has not changed, so the second load must again be the saved object
+            try:
+                for n in list(G.nodes)[:3]:
+                    g.set_attr_to_node_metadata(n, "seen", True)
+                for k in [k for k in G.edges if K.size(k) > 0][:3]:
+                    g.set_attr_to_edge_metadata(*lib_args(kind, k), "seen", True)
+                g.set_attr_to_hypergraph_metadata("seen", True)
+            except Exception as e:
+                ctx.note("edit-of-first-loaded-object-refused:" + type(e).__name__)
+            ctx.event("same-file-loaded-again")
+            try:
+                g3 = load_hypergraph(path)
+                P3 = []
+                G3 = observe(g3, P3)
+                d3 = norm_state(G3).diff(B, with_hgmd=True) + P3
+            except Exception as e:
+                d3 = ["raised:" + type(e).__name__]
+            ctx.check("C06:roundtrip", not d3, f"C06:{kind}:{fmt}:same-file-loaded-again-differs(after the first loaded object was edited):" + ",".join(d3), wit)
     if len(before.edges) >= 2 and (any(before.nodes.values()) or any(not any(n in K.nodes(k) for k in before.edges) for n in before.nodes)):
         ctx.distinct_add(("rt", kind, before.freeze()))
     if idx % 80 == 0:
